@@ -275,6 +275,21 @@ func (f *fields) delAt(i int) bool {
 	copy(a[i:], a[i+1:])
 	a[len(a)-1] = nil
 	f.a = a[:len(a)-1]
+
+	// elements after the removed one moved down by one: update their index
+	for j := i; j < len(f.a); j++ {
+		v := f.a[j]
+		if v == nil {
+			continue
+		}
+		ctx := v.Context()
+		ctx.field = fmt.Sprintf("%d", j)
+		if sub, ok := v.(cfgSub); ok {
+			sub.c.ctx = ctx
+		} else {
+			v.SetContext(ctx)
+		}
+	}
 	return true
 }
 
